@@ -261,7 +261,27 @@ func (c *c10Case) script() string {
 	} else {
 		sb.WriteString("  let c = C()\n")
 	}
-	fmt.Fprintf(&sb, "  let r = &c as &{I%d}\n", sh.Conforms[0]+1)
+	// the reference is typed by the first listed interface that (transitively) declares f; by C itself if none does
+	refType := "C"
+	var declares func(i int) bool
+	declares = func(i int) bool {
+		if !c10Variants[c.Variants[i]].Absent {
+			return true
+		}
+		for _, p := range sh.Parents[i] {
+			if declares(p) {
+				return true
+			}
+		}
+		return false
+	}
+	for _, i := range sh.Conforms {
+		if declares(i) {
+			refType = fmt.Sprintf("{I%d}", i+1)
+			break
+		}
+	}
+	fmt.Fprintf(&sb, "  let r = &c as &%s\n", refType)
 	call := func(site string, arg int) {
 		fmt.Fprintf(&sb, "  log(\"site:%s:%d\"); ", site, arg)
 		switch site {
